@@ -253,8 +253,9 @@ def run_case(case, rec):
             if not emit.fits_pdb(rows):
                 rec.skip("atoms.as-written", "generated table outside PDB limits")
                 return
-            text = emit.emit_pdb(rows)
-            desc = {"i": case["i"], "fmt": fmt}
+            per_frame_end = case["i"] % 7 == 3
+            text = emit.emit_pdb(rows, end_after_each_model=per_frame_end)
+            desc = {"i": case["i"], "fmt": fmt, "END-after-every-model": per_frame_end}
         else:
             marker = rng.choice(["?", "."])
             per = {c: rng.choice(["?", "."]) for c in ("pdbx_PDB_ins_code", "label_alt_id", "occupancy", "pdbx_formal_charge", "type_symbol")} if rng.random() < 0.5 else {}
@@ -271,8 +272,12 @@ def run_case(case, rec):
                 extra = [("entity", ["id", "type"], [["1", "polymer"]], "kv"), ("entity_poly", ["entity_id", "type"], [["1", rng.choice(["polyribonucleotide", "polypeptide(L)"])]], "kv")]
                 if mods:
                     extra.append(("pdbx_struct_mod_residue", ["id", "label_asym_id", "label_comp_id", "label_seq_id", "auth_asym_id", "auth_comp_id", "auth_seq_id", "PDB_ins_code", "parent_comp_id", "details"], mods, "loop"))
-            text = emit.emit_cif(rows, null=marker, nulls=per, label_seq=rng.choice(["index", "auth"]), extra_cats=extra)
-            desc = {"i": case["i"], "fmt": fmt, "null": marker, "nulls": per, "extra-categories": [c[0] for c in extra or []]}
+            order = None
+            if case["i"] % 4 == 2:
+                order = list(emit.CIF_COLS)
+                random.Random(f"order:{case['i']}").shuffle(order)
+            text = emit.emit_cif(rows, null=marker, nulls=per, label_seq=rng.choice(["index", "auth"]), extra_cats=extra, col_order=order)
+            desc = {"i": case["i"], "fmt": fmt, "null": marker, "nulls": per, "extra-categories": [c[0] for c in extra or []], "item-order": "shuffled" if order else "usual"}
         models = sorted({r["model"] for r in rows})
         reqs = [None] + models + [models[-1] + 7]
         rec.mark_nontrivial(len(rows) >= 2)
